@@ -661,6 +661,259 @@ theorem linesCommented_header (text : Str) (strip : Bool) : linesCommented .star
   simp only [hsp, Bool.false_eq_true, if_false]
   exact linesCommented_nlGo text ['\n'] false (by decide)
 
+/-! ## numbers -/
+
+theorem valOf_foldl (cs : Str) (a : Nat) :
+    cs.foldl (fun a c => a * 10 + (c.toNat - 48)) a = a * 10 ^ cs.length + valOf cs := by
+  unfold valOf
+  induction cs generalizing a with
+  | nil => simp
+  | cons c cs ih =>
+    simp only [List.foldl_cons, List.length_cons]
+    rw [ih (a * 10 + (c.toNat - 48)), ih (0 * 10 + (c.toNat - 48))]
+    simp only [Nat.zero_mul, Nat.zero_add, Nat.pow_succ]
+    rw [Nat.add_mul, Nat.add_assoc, Nat.mul_assoc, Nat.mul_comm 10]
+
+theorem valOf_append (a b : Str) : valOf (a ++ b) = valOf a * 10 ^ b.length + valOf b := by
+  unfold valOf
+  rw [List.foldl_append, valOf_foldl]
+  rfl
+
+theorem valOf_zeros (k : Nat) : valOf (List.replicate k '0') = 0 := by
+  induction k with
+  | zero => rfl
+  | succ k ih =>
+    have : List.replicate (k + 1) '0' = ['0'] ++ List.replicate k '0' := by simp [List.replicate_succ]
+    have h0 : valOf ['0'] = 0 := by decide
+    rw [this, valOf_append, ih, h0]; simp
+
+theorem valOf_zeros_append (k : Nat) (x : Str) : valOf (List.replicate k '0' ++ x) = valOf x := by
+  rw [valOf_append, valOf_zeros]; simp
+
+theorem valOf_append_zeros (x : Str) (k : Nat) : valOf (x ++ List.replicate k '0') = valOf x * 10 ^ k := by
+  rw [valOf_append, valOf_zeros]; simp
+
+theorem takeWhile_nodot (xs ys : Str) (h : ∀ c ∈ xs, c ≠ '.') :
+    (xs ++ '.' :: ys).takeWhile notDot = xs ∧ (xs ++ '.' :: ys).dropWhile notDot = '.' :: ys := by
+  induction xs with
+  | nil =>
+    have : notDot '.' = false := by decide
+    simp [List.takeWhile_cons, List.dropWhile_cons, this]
+  | cons c cs ih =>
+    have hc : notDot c = true := by simp [notDot, h c (by simp)]
+    have := ih (fun d hd => h d (List.mem_cons_of_mem _ hd))
+    simp only [List.cons_append, List.takeWhile_cons, List.dropWhile_cons, hc, if_true, this.1, this.2, and_self]
+
+theorem takeWhile_nodot_all (xs : Str) (h : ∀ c ∈ xs, c ≠ '.') :
+    xs.takeWhile notDot = xs ∧ xs.dropWhile notDot = [] := by
+  induction xs with
+  | nil => simp
+  | cons c cs ih =>
+    have hc : notDot c = true := by simp [notDot, h c (by simp)]
+    have := ih (fun d hd => h d (List.mem_cons_of_mem _ hd))
+    simp only [List.takeWhile_cons, List.dropWhile_cons, hc, if_true, this.1, this.2, and_self]
+
+theorem digit_ne_dot (c : Char) (h : isDigit c = true) : c ≠ '.' := by
+  intro e; subst e; revert h; decide
+
+theorem decValue_int (ip : Str) (h : ∀ c ∈ ip, isDigit c = true) : decValue ip = (valOf ip * 10 ^ 0, 1) := by
+  have hd := takeWhile_nodot_all ip (fun c hc => digit_ne_dot c (h c hc))
+  simp [decValue, hd.1, hd.2]
+
+theorem decValue_frac (ip fp : Str) (h : ∀ c ∈ ip, isDigit c = true) (hfp : fp ≠ []) :
+    decValue (ip ++ '.' :: fp) = (valOf (ip ++ fp), 10 ^ fp.length) := by
+  have hd := takeWhile_nodot ip fp (fun c hc => digit_ne_dot c (h c hc))
+  have : fp.isEmpty = false := by cases fp <;> simp_all
+  simp [decValue, hd.1, hd.2, this]
+
+/-- the number token strconv writes for the digits `ds` and decimal point `dp` reads back as exactly ds × 10^(dp − n) -/
+theorem decValue_renderF (ds : Str) (dp : Int) (hds : ∀ c ∈ ds, isDigit c = true) (hz : ds ≠ [] ∨ dp = 0) :
+    decValue (renderF ds dp) = ratOf (valOf ds) (dp - ds.length) := by
+  have hzero : ∀ k, ∀ c ∈ List.replicate k '0', isDigit c = true := by
+    intro k c hc; rw [List.mem_replicate] at hc; rw [hc.2]; decide
+  by_cases h1 : dp ≤ 0
+  · by_cases hn : ds = []
+    · subst hn
+      have : dp = 0 := by rcases hz with h | h; exact absurd rfl h; exact h
+      subst this
+      decide
+    · have hlen : 0 < ds.length := List.length_pos_iff.mpr hn
+      have hfl : ((ds.length : Int) - dp).toNat ≠ 0 := by omega
+      have htn : dp.toNat = 0 := by omega
+      simp only [renderF, h1, if_true, hfl, if_false, htn, List.drop_zero]
+      rw [decValue_frac ['0'] _ (by intro c hc; simp at hc; subst hc; decide) (by
+        intro e; have := congrArg List.length e
+        simp only [List.length_append, List.length_replicate, List.length_nil] at this; omega)]
+      have hneg : ¬ (0 ≤ dp - (ds.length : Int)) := by omega
+      simp only [ratOf, hneg, if_false]
+      have hv : valOf (['0'] ++ (List.replicate (-dp).toNat '0' ++ ds)) = valOf ds := by
+        have : ['0'] ++ (List.replicate (-dp).toNat '0' ++ ds) = List.replicate ((-dp).toNat + 1) '0' ++ ds := by
+          simp [List.replicate_succ]
+        rw [this, valOf_zeros_append]
+      rw [hv]
+      congr 2
+      simp; omega
+  · by_cases h2 : dp < ds.length
+    · have hfl : ((ds.length : Int) - dp).toNat ≠ 0 := by omega
+      have hpad : dp.toNat - ds.length = 0 := by omega
+      have hnz : (-dp).toNat = 0 := by omega
+      simp only [renderF, h1, if_false, hfl, hpad, hnz, List.replicate_zero, List.append_nil, List.nil_append]
+      have htk : ∀ c ∈ ds.take dp.toNat, isDigit c = true := fun c hc => hds c (List.mem_of_mem_take hc)
+      rw [decValue_frac _ _ htk (by
+        intro e; have := congrArg List.length e
+        simp only [List.length_drop, List.length_nil] at this; omega)]
+      have hneg : ¬ (0 ≤ dp - (ds.length : Int)) := by omega
+      simp only [ratOf, hneg, if_false, List.take_append_drop]
+      congr 2
+      simp; omega
+    · have hfl : ((ds.length : Int) - dp).toNat = 0 := by omega
+      simp only [renderF, h1, if_false, hfl, if_true]
+      have htake : ds.take dp.toNat = ds := List.take_of_length_le (by omega)
+      rw [htake]
+      rw [decValue_int _ (by
+        intro c hc; rw [List.mem_append] at hc
+        rcases hc with hc | hc
+        · exact hds c hc
+        · exact hzero _ c hc)]
+      have hpos : 0 ≤ dp - (ds.length : Int) := by omega
+      simp only [ratOf, hpos, if_true, valOf_append_zeros, Nat.pow_zero, Nat.mul_one]
+      congr 3
+      omega
+
+theorem topStep_digit_table : ∀ n : Fin 128, isDigit (Char.ofNat n) = true → topStep (Char.ofNat n) = ([], .num [Char.ofNat n]) := by
+  decide
+
+theorem topStep_digit (c : Char) (h : isDigit c = true) : topStep c = ([], .num [c]) := by
+  have hlt : c.toNat < 128 := by
+    simp only [isDigit, Bool.and_eq_true, decide_eq_true_eq] at h; omega
+  have := topStep_digit_table ⟨c.toNat, hlt⟩
+  simp only [Char.ofNat_toNat] at this
+  exact this h
+
+theorem digit_ne_nul (c : Char) (h : isDigit c = true) : c ≠ NUL := by
+  intro e; subst e; revert h; decide
+
+theorem num_body (ds acc rest : Str) (h : ∀ c ∈ ds, isDigit c = true) :
+    go (.num acc) (ds ++ rest) = go (.num (ds.reverse ++ acc)) rest := by
+  induction ds generalizing acc with
+  | nil => simp
+  | cons c cs ih =>
+    have hc := h c (by simp)
+    simp only [List.cons_append]
+    rw [go_cons, step_ne_nul _ _ (digit_ne_nul c hc)]
+    simp only [stepN, hc, if_true, List.nil_append]
+    rw [ih _ (fun d hd => h d (List.mem_cons_of_mem _ hd))]; simp
+
+theorem num_end (acc r : Str) (h : numFollow r = true) : go (.num acc) r = .num acc.reverse :: go .top r := by
+  cases r with
+  | nil => simp [go_nil, finish]
+  | cons c cs =>
+    have hc : isDigit c = false ∧ c ≠ '.' := by simpa [numFollow] using h
+    by_cases h0 : c = NUL
+    · subst h0
+      rw [go_cons, go_top_nul]
+      simp [step, stepNul, finish]
+    · rw [go_cons, step_ne_nul _ _ h0, go_top_cons c cs h0]
+      simp [stepN, hc.1, hc.2, emitThen]
+
+theorem lex_digits (c : Char) (cs r : Str) (hc : isDigit c = true) (hcs : ∀ d ∈ cs, isDigit d = true)
+    (hr : numFollow r = true) : lex (c :: cs ++ r) = .num (c :: cs) :: lex r := by
+  unfold lex
+  simp only [List.cons_append]
+  rw [go_top_cons _ _ (digit_ne_nul c hc), topStep_digit c hc]
+  simp only [List.nil_append]
+  rw [num_body cs [c] r hcs, num_end _ _ hr]; simp
+
+theorem lex_decimal (c : Char) (cs : Str) (f : Char) (fs r : Str) (hc : isDigit c = true) (hcs : ∀ d ∈ cs, isDigit d = true)
+    (hf : isDigit f = true) (hfs : ∀ d ∈ fs, isDigit d = true) (hr : numFollow r = true) :
+    lex (c :: cs ++ '.' :: f :: fs ++ r) = .num (c :: cs ++ '.' :: f :: fs) :: lex r := by
+  unfold lex
+  simp only [List.cons_append, List.append_assoc]
+  rw [go_top_cons _ _ (digit_ne_nul c hc), topStep_digit c hc]
+  simp only [List.nil_append]
+  rw [num_body cs [c] _ hcs]
+  have hdot : step (.num (cs.reverse ++ [c])) '.' = ([], .numDot (cs.reverse ++ [c])) := by
+    rw [step_ne_nul _ _ (by decide)]; simp [stepN, isDigit]
+  rw [go_cons, hdot]
+  simp only [List.nil_append]
+  rw [go_cons, step_ne_nul _ _ (digit_ne_nul f hf)]
+  simp only [stepN, hf, if_true, List.nil_append]
+  rw [num_body fs _ r hfs, num_end _ _ hr]
+  simp
+
+/-- the text strconv writes for a number is exactly ONE number token -/
+theorem lex_renderF (ds : Str) (dp : Int) (r : Str) (hds : ∀ c ∈ ds, isDigit c = true) (hz : ds ≠ [] ∨ dp = 0)
+    (hr : numFollow r = true) : lex (renderF ds dp ++ r) = .num (renderF ds dp) :: lex r := by
+  have hzero : ∀ k, ∀ c ∈ List.replicate k '0', isDigit c = true := by
+    intro k c hc; rw [List.mem_replicate] at hc; rw [hc.2]; decide
+  have h0 : isDigit '0' = true := by decide
+  by_cases h1 : dp ≤ 0
+  · by_cases hn : ds = []
+    · subst hn
+      have : dp = 0 := by rcases hz with h | h; exact absurd rfl h; exact h
+      subst this
+      show lex ('0' :: [] ++ r) = _
+      exact lex_digits '0' [] r h0 (by simp) hr
+    · have hlen : 0 < ds.length := List.length_pos_iff.mpr hn
+      have hfl : ((ds.length : Int) - dp).toNat ≠ 0 := by omega
+      have htn : dp.toNat = 0 := by omega
+      simp only [renderF, h1, if_true, hfl, if_false, htn, List.drop_zero]
+      obtain ⟨f, fs, hfeq⟩ : ∃ f fs, List.replicate (-dp).toNat '0' ++ ds = f :: fs := by
+        cases hrep : List.replicate (-dp).toNat '0' ++ ds with
+        | nil =>
+          have := congrArg List.length hrep
+          simp only [List.length_append, List.length_replicate, List.length_nil] at this; omega
+        | cons f fs => exact ⟨f, fs, rfl⟩
+      have hall : ∀ d ∈ f :: fs, isDigit d = true := by
+        rw [← hfeq]; intro d hd; rw [List.mem_append] at hd
+        rcases hd with hd | hd
+        · exact hzero _ d hd
+        · exact hds d hd
+      rw [hfeq]
+      exact lex_decimal '0' [] f fs r h0 (by simp) (hall f (by simp)) (fun d hd => hall d (List.mem_cons_of_mem _ hd)) hr
+  · have hdp : 0 < dp.toNat := by omega
+    by_cases h2 : dp < ds.length
+    · have hfl : ((ds.length : Int) - dp).toNat ≠ 0 := by omega
+      have hpad : dp.toNat - ds.length = 0 := by omega
+      have hnz : (-dp).toNat = 0 := by omega
+      simp only [renderF, h1, if_false, hfl, hpad, hnz, List.replicate_zero, List.append_nil, List.nil_append]
+      obtain ⟨c, cs, hceq⟩ : ∃ c cs, ds.take dp.toNat = c :: cs := by
+        cases ht : ds.take dp.toNat with
+        | nil =>
+          have := congrArg List.length ht
+          simp only [List.length_take, List.length_nil] at this; omega
+        | cons c cs => exact ⟨c, cs, rfl⟩
+      obtain ⟨f, fs, hfeq⟩ : ∃ f fs, ds.drop dp.toNat = f :: fs := by
+        cases ht : ds.drop dp.toNat with
+        | nil =>
+          have := congrArg List.length ht
+          simp only [List.length_drop, List.length_nil] at this; omega
+        | cons f fs => exact ⟨f, fs, rfl⟩
+      have hallc : ∀ d ∈ c :: cs, isDigit d = true := by rw [← hceq]; exact fun d hd => hds d (List.mem_of_mem_take hd)
+      have hallf : ∀ d ∈ f :: fs, isDigit d = true := by rw [← hfeq]; exact fun d hd => hds d (List.mem_of_mem_drop hd)
+      rw [hceq, hfeq]
+      exact lex_decimal c cs f fs r (hallc c (by simp)) (fun d hd => hallc d (List.mem_cons_of_mem _ hd))
+        (hallf f (by simp)) (fun d hd => hallf d (List.mem_cons_of_mem _ hd)) hr
+    · have hfl : ((ds.length : Int) - dp).toNat = 0 := by omega
+      simp only [renderF, h1, if_false, hfl, if_true]
+      have htake : ds.take dp.toNat = ds := List.take_of_length_le (by omega)
+      rw [htake]
+      have hn : ds ≠ [] := by
+        intro e; subst e; rcases hz with h | h
+        · exact h rfl
+        · subst h; simp at h1
+      obtain ⟨c, cs, rfl⟩ : ∃ c cs, ds = c :: cs := by
+        cases ds with
+        | nil => exact absurd rfl hn
+        | cons c cs => exact ⟨c, cs, rfl⟩
+      have hall : ∀ d ∈ cs ++ List.replicate (dp.toNat - (c :: cs).length) '0', isDigit d = true := by
+        intro d hd; rw [List.mem_append] at hd
+        rcases hd with hd | hd
+        · exact hds d (List.mem_cons_of_mem _ hd)
+        · exact hzero _ d hd
+      have := lex_digits c (cs ++ List.replicate (dp.toNat - (c :: cs).length) '0') r (hds c (by simp)) hall hr
+      simpa [List.cons_append, List.append_assoc] using this
+
 /-! ## LIKE patterns -/
 
 theorem likeLiteral_likeEsc (s : Str) : likeLiteral (likeEsc s) = some s := by
